@@ -184,11 +184,16 @@ func init() {
 			h := http.Header{}
 			wire := body
 			if gz {
+				// a gzip stream may consist of several members (RFC 1952 2.2): 1-3 members, depending on the body length
 				var zb bytes.Buffer
-				zw := gzip.NewWriter(&zb)
-				_, _ = zw.Write(body)
-				_ = zw.Close()
+				members := 1 + len(body)%3
+				for m := 0; m < members; m++ {
+					zw := gzip.NewWriter(&zb)
+					_, _ = zw.Write(body[len(body)*m/members : len(body)*(m+1)/members])
+					_ = zw.Close()
+				}
 				wire = zb.Bytes()
+				st.Inc(fmt.Sprintf("gzip_members_%d", members))
 				h.Set("Content-Encoding", "gzip")
 			}
 			if csp {
